@@ -471,6 +471,17 @@ func (x *Unit) reacquireHavoc(st *State, pc *preparedCall, released T) {
 	if !ok {
 		return
 	}
+	// a contract that states the interference at this very call itself (at call M.Lock havoc ... / assume monitor invariant) has the say
+	funText := x.srcOf(fun)
+	for fr := x.fr; fr != nil; fr = fr.parent {
+		if b := x.eng.blockFor(x.pkg.PkgPath, fr.loopBase); b != nil {
+			for _, cl := range b.Clauses {
+				if cl.Kind == "at" && cl.AtKind == "call" && cl.AtAction == "havoc" && cl.AtName == funText {
+					return
+				}
+			}
+		}
+	}
 	bt := x.info.TypeOf(muSel.X)
 	if bt == nil {
 		return
